@@ -29,8 +29,8 @@ TECH["C08"]="rapid property-based testing of cross-language calls: emitted TypeS
 TEXT={
  "C12":("Generated-input search: every rule x placement cell of the documented catalogue is injected into rapid-drawn valid schemas and judged at the process boundary of the real plugins; the converse is checked on every base schema. Exploration, not proof: cells are enumerated, surroundings sampled.","§5 C12"),
  "C14":("Differential property test over rapid-drawn schemas: byte identity of same-named files, plus behavioural equality of server-only and client-only builds on generated values. Exploration.","§5 C14"),
- "C15":("Metamorphic property test: the same schema is generated under rerun / GOMAXPROCS / extra files / multi-package / permuted order / each file alone vs all files together / parameter spelling variations, outputs must be byte-identical, and no output file may come from two different single-file runs (a merely imported file contributes no output). Map-order nondeterminism is sampled with fresh processes. Exploration.","§5 C15"),
- "C16":("Generated degenerate descriptor sets (cycles, depth, width, long names, WKTs, empty services, missing go_package, odd identifiers; one in two with a misused annotation, also on RPC body messages) x parameters incl. malformed strings; each plugin process must answer within 20 s / 2 GiB without panic. Bounded observation of termination, not a liveness proof.","§5 C16"),
+ "C15":("Metamorphic property test: the same schema is generated under rerun / GOMAXPROCS / extra files / multi-package (incl. a neighbour package with the same service and header names) / permuted order / each file alone vs all files together / parameter spelling variations, outputs must be byte-identical, and no output file may come from two different single-file runs (a merely imported file contributes no output). Map-order nondeterminism is sampled with fresh processes. Exploration.","§5 C15"),
+ "C16":("One descriptor set in four is an ordinary fully annotated schema, the others are generated degenerate descriptor sets (cycles, depth, width, long names, WKTs, empty services, missing go_package, odd identifiers; one in two with a misused annotation, also on RPC body messages) x parameters incl. malformed strings; each plugin process must answer within 20 s / 2 GiB without panic. Bounded observation of termination, not a liveness proof.","§5 C16"),
 }
 TEXT.update({
  "C01":("Batches of rapid-drawn schemas are compiled and linked with a generic engine; for every RPC rapid draws request/response values (reserved URL characters, extremes, presence states) and a content type, the generated client calls the generated server, and request/response equality is checked. Exploration with shrinking of values; schemas are sampled.","§5 C01"),
@@ -42,14 +42,14 @@ TEXT["C02"]=("For every RPC with URL-bound fields rapid draws request lines (val
 TEXT["C09"]=("For every RPC with declared headers rapid draws header value sets (absent, empty, must-accept, must-reject, grey per type/format) and body validity; dispatch / 400-with-one-violation-per-offender is judged by a reference validator H; one request in five is written from the published OpenAPI header parameters alone and must be dispatched. Exploration with shrinking.","§5 C09")
 TEXT["C10"]=("rapid draws an error source, a hook behaviour and a content type per call; status, headers, body (decoded in the request's content type) and the Go client's error value are compared with the documented contract; violation paths come from running the reference validator on the same request (field- and message-level rules); the TypeScript server is driven with handler errors, handler ValidationErrors, missing headers and an onError hook. Exploration.","§5 C10")
 TEXT["C11"]=("Valid model-encoded bodies are mutated (wrong type per field at depth, truncation, trailing data, top-level scalars, deep nesting, invalid UTF-8, duplicate keys, random and truncated wire data) under many content types; server verdicts must be 200 or a well-formed 400 and invalid-in-every-form bodies are never dispatched. The Go client is fed arbitrary status/content-type/body combinations. Exploration; bytes-level coverage guidance is not used.","§5 C11")
-TEXT["C17"]=("Random multisets of 10-80 calls over all routes run at parallelism 1-32 through shared generated clients and one shared generated server in a -race build; each call's result is compared with the same call issued alone; a second group runs the emitted mock implementation behind the generated server under concurrent calls (status as alone, no race report). Schedules are sampled, not enumerated: the weakest claim of the set.","§5 C17")
+TEXT["C17"]=("Random multisets of 10-80 calls over all routes run at parallelism 1-32 through shared generated clients and one shared generated server in a -race build; each call's result is compared with the same call issued alone, no call may be rejected over a header its route does not declare, and the first case of every package runs its concurrent phase first (cold start); a second group runs the emitted mock implementation behind the generated server under concurrent calls (status as alone, no race report). Schedules are sampled, not enumerated: the weakest claim of the set.","§5 C17")
 TEXT["C20"]=("Schemas are generated with generate_mock=true; the package must build and vet, the mock-backed generated server must answer valid requests with 200 and a body that decodes to the response type in its documented JSON form, and fields with examples must hold a parsable example. Exploration on the sub-domain the mock generator compiles for; the rest is pinned as known findings.","§5 C20")
 TEXT["C18"]=("Every emitted document of rapid-drawn schemas is parsed with parsers the plugin does not use and checked for the listed structural invariants under all four format settings; YAML and JSON renderings are compared as trees. Exploration.","§5 C18")
 TEXT["C19"]=("For each rule-carrying field probes at and around every bound are encoded with the reference model and judged both by the reference rule semantics and by jsonschema against the published property schema; any disagreement is a violation. Exploration with boundary-directed probes.","§5 C19")
 TEXT["C06"]=("Request bodies sent by the generated Go client, response bodies of the generated Go server (200 / 400 incl. requests refused by their buf.validate rules / default) and the path, query and header values as sent are validated with jsonschema against the schemas the service's OpenAPI document publishes for that operation, and walked for properties no subschema describes; the default value of every request/response type must satisfy its component schema. Exploration.","§5 C06")
-TEXT["C03"]=("For rapid-drawn route shapes every RPC is exercised with all URL-bound fields non-default; the Go client's and the TS client's concrete request lines, the Go server's routing decision and the URL-carried field values its handler sees, the TS server's route table and the OpenAPI operation are compared pairwise. Exploration.","§5 C03")
+TEXT["C03"]=("For rapid-drawn route shapes (incl. several verbs on one template, paths without leading or with trailing slash, optional path fields) every RPC is exercised with all URL-bound fields non-default and path text with URL-reserved characters; the Go client's and the TS client's concrete request lines, the Go server's routing decision and the URL-carried field values its handler sees, the TS server's route table and the OpenAPI operation are compared pairwise. Exploration.","§5 C03")
 TEXT["C07"]=("Values captured from the generated Go server, contract-form requests and the arguments the generated TS server hands to handlers are checked for structural membership in the types the emitted .ts files declare (parsed by a reader of the emitted subset); ts-client and ts-server declarations are compared. Exploration; type-checking proper is impossible offline.","§5 C07")
-TEXT["C08"]=("The emitted .ts modules are imported in Node 22 and driven through a long-lived driver: TS client -> Go server, Go client -> TS server and TS client -> TS server calls over loopback HTTP with drawn requests, responses and header options must deliver request and response unchanged. Exploration.","§5 C08")
+TEXT["C08"]=("The emitted .ts modules are imported in Node 22 and driven through a long-lived driver: TS client -> Go server, Go client -> TS server and TS client -> TS server calls over loopback HTTP with drawn requests, responses and header options must deliver request and response unchanged; everything the caller hands to the TS client is deep-frozen. Exploration.","§5 C08")
 NOTE={
  "C12":"Trusted: schema generator + protodesc gate stand in for protoc; error text naming the offender is the 'names the offender' criterion.",
  "C14":"Trusted: protoc-gen-go, Go toolchain, protovalidate stand-in (not exercised by codecs).",
